@@ -150,6 +150,14 @@ func registerVX() {
 	reg("Symbolic", func(in *Interp, c *frame, fn *ssa.Function, a []Value) Value {
 		return trueT
 	})
+	reg("SameByte", func(in *Interp, c *frame, fn *ssa.Function, a []Value) Value {
+		x, ok1 := a[0].(*Term)
+		y, ok2 := a[1].(*Term)
+		if !ok1 || !ok2 {
+			return mkBool(false)
+		}
+		return mkBool(x == y || x.IsConst() && y.IsConst() && x.val == y.val)
+	})
 	reg("IsConcrete", func(in *Interp, c *frame, fn *ssa.Function, a []Value) Value {
 		return mkBool(isConcrete(a[0]))
 	})
